@@ -168,6 +168,8 @@ def check(ctx: Ctx) -> None:
         g = next((a for a in ancestors(dflt[0]) if isinstance(a, ast.If)), None)
         ok = g is not None and isinstance(g.test, ast.UnaryOp) and isinstance(g.test.op, ast.Not) and "any(" in src(g.test) and "== 0" in src(g.test) \
             and "TIME_SIGNATURE" in src(g.test)
+        from ..astutil import extra_conditions
+        ok = ok and not extra_conditions(dflt[0], g.test)
         ctx.check(ok, "DEFAULT", "convert: default added only when no time signature sits at tick 0", function=cv.qualname,
                   construct="default time signature added under another condition", message=short(getattr(g, "test", None), 100), file=cv.file, node=g or cv.node)
 
